@@ -16,5 +16,6 @@ CONSTANTS
   MaxClock = 2
 SPECIFICATION SSpec
 CONSTRAINT ClockBound
+VIEW SView
 INVARIANT Never_ServedOldContent
 CHECK_DEADLOCK FALSE
